@@ -169,11 +169,12 @@ def reshape_semantics(s, r, allowzero):
 KINDS = [0, 2, 3, "N", "unknown"]
 
 
-def pick_dims(ctx, W, tag, max_rank=3, min_rank=0):
+def pick_dims(ctx, W, tag, max_rank=3, min_rank=0, kinds=None):
+    kinds = kinds or KINDS
     rank = min_rank + ctx.choose(max_rank - min_rank + 1, f"rank of {tag}")
     static, rt = [], []
     for i in range(rank):
-        k = KINDS[ctx.choose(len(KINDS), f"{tag}[{i}]")]
+        k = kinds[ctx.choose(len(kinds), f"{tag}[{i}]")]
         if isinstance(k, int):
             static.append(k)
             rt.append(z3.IntVal(k))
@@ -259,3 +260,98 @@ def s_flatten_to_reshape(ctx):
 
 SCENARIOS.append(Scenario("C09.rules.Flatten2Reshape", s_flatten_to_reshape, [(BASIC, "Flatten2Reshape.check"), (BASIC, "Flatten2Reshape.rewrite")],
                           kind="bounded", bound="rank of x <= 3, static dims in {0, 2, 3}; named and unknown dims unbounded", trusted=TRUST, max_paths=60000))
+
+
+def s_reshape_reshape(ctx):
+    """ReshapeReshape: Reshape(Reshape(x, s1), s2) -> Reshape(x, const, allowzero).
+    Post: when the rule fires, for EVERY binding of the dims on which the ORIGINAL pair of reshapes executes, the single
+    Reshape is valid and yields the same output shape (the element order of a Reshape chain does not depend on the
+    intermediate shape).  In the original the 0 entries of s2 copy dims of the INTERMEDIATE tensor (allowzero=0); in the
+    rewritten node they would copy dims of x - so they must have been resolved."""
+    import onnx_ir as ir
+    from onnxscript.rewriter.rules.common import _basic_rules
+    from onnxscript.rewriter import _ir_utils
+    I = Interp(ctx)
+    W = World(I)
+    install_numpy(I)
+    xs, xrt = pick_dims(ctx, W, "x", max_rank=2, kinds=[3, "N"])
+    ms, mrt = pick_dims(ctx, W, "mid", max_rank=2, kinds=[0, 2, "N"])     # runtime shape of the intermediate Reshape(x, s1)
+    for t in xrt + mrt:
+        if not z3.is_int_value(t):
+            # products of several symbolic dims are nonlinear: named dims range over the property's own binding set
+            ctx.assume(z3.Or(*[t == v for v in (0, 1, 2, 3, 7)]))
+    ctx.assume(prod(xrt) == prod(mrt))                 # the first reshape executed
+    n = 1 + ctx.choose(2, "length of the second target")
+    items = []
+    for i in range(n):
+        k = ["positive", "0", "-1"][ctx.choose(3, f"s2[{i}]")]
+        if k == "positive":
+            t = ctx.int(f"s2_{i}")
+            ctx.assume(t > 0)
+            ctx.witness[f"s2_{i}"] = t
+            items.append(SInt(t))
+        else:
+            items.append(0 if k == "0" else -1)
+    az_orig = 2 * ctx.choose(2, "allowzero of the second Reshape: absent / 1")
+    allowzero_orig = az_orig == 2
+    s2 = [_t(v) for v in items]
+    valid0, outs0, _ = reshape_semantics(s2, mrt, allowzero_orig)
+    ctx.assume(valid0)                                  # the original executes
+    x = W.value("x", dims=xs, rt=xrt, dtype=ir.DataType.FLOAT)
+    const_known = True if any(isinstance(d, int) for d in xs) else ctx.choose(2, "second target is a constant") == 0
+    shape2 = W.value("shape", dims=[n], rt=[], dtype=ir.DataType.INT64, const=(W.tensor(items, ir.DataType.INT64) if const_known else None), initializer=const_known)
+    I.models[_ir_utils.get_numpy_value] = lambda interp, v, *a, **k: (v.fields["const_value"].arr if isinstance(v, SObj) and v.fields.get("const_value") is not None else None)
+    # the annotated output shape (sound: what shape inference can know): per dim static int (when the runtime value is a literal), or unknown
+    out_known = ctx.choose(2, "output shape annotated") == 1
+    out_static = None
+    if out_known:
+        out_static = []
+        for i, t in enumerate(outs0):
+            ts = z3.simplify(t)
+            if z3.is_int_value(ts):
+                out_static.append(ts.as_long())
+            else:
+                out_static.append(ir.SymbolicDim(None))
+    out = W.value("out", dims=out_static, rt=outs0, dtype=ir.DataType.FLOAT)
+    out.fields["name"] = "out"
+    node2 = W.node("Reshape", [W.value("mid_value"), shape2], outputs=[out], attrs=({} if az_orig == 0 else {"allowzero": az_orig - 1}))
+    context = SObj(object, "context")
+    context.fields.update(root=node2, nodes=[node2, W.node("Reshape", [x, W.value("shape_ignored")])], output_values=[out])
+    rule = SObj(_basic_rules.ReshapeReshape, "rule")
+    try:
+        fired = I.truth(I.call(I.getattr(rule, "check"), [context, x, W.value("shape_ignored"), shape2]))
+    except PyRaise as e:
+        ctx.check("C04.rules.ReshapeReshape.check_never_raises", False, f"C04 — raised {e.exc!r}")
+        return
+    if not fired:
+        ctx.cover("ReshapeReshape.check_failed")
+        return
+    ctx.check("C09.rules.ReshapeReshape.fires_only_for_a_constant_target", const_known, CL09)
+    made = []
+
+    def m_tensor(interp, arr, name=None, **kw):
+        made.append(arr)
+        return ("tensor", len(made))
+    I.models[ir.Tensor] = m_tensor
+    r = I.call(I.getattr(rule, "rewrite"), [OpRecorder(), x, W.value("shape_ignored"), shape2])
+    ok = isinstance(r, Call) and r.op == "Reshape" and len(r.args) == 2 and r.args[0] is x and isinstance(r.args[1], Call) and r.args[1].op == "initializer" \
+        and len(made) == 1 and isinstance(made[0], NArr) and set(r.kwargs) <= {"allowzero"}
+    ctx.check("C05.rules.ReshapeReshape.replacement_is_one_reshape_of_x_by_a_constant", ok, CL05)
+    if not ok:
+        return
+    az = r.kwargs.get("allowzero", None)
+    allowzero_new = (az == 1)
+    s = [_t(v) for v in made[0].items]
+    ctx.check("C09.rules.ReshapeReshape.new_target_has_the_length_of_the_old_one", len(s) == n, CL09)
+    if len(s) != n:
+        return
+    valid, outs, _q = reshape_semantics(s, xrt, allowzero_new)
+    ctx.note(f"case: x{xs} mid{ms} s2={items} allowzero={az_orig} out={out_static} -> const={made[0].items} allowzero={az}")
+    ctx.check("C09.rules.ReshapeReshape.single_reshape_is_valid_for_every_binding_on_which_the_pair_executes", valid, CL09)
+    ctx.check("C09.rules.ReshapeReshape.single_reshape_yields_the_shape_of_the_pair_for_every_binding",
+              z3.Implies(valid, z3.And(*[a == b for a, b in zip(outs, outs0)])), CL09)
+
+
+SCENARIOS.append(Scenario("C09.rules.ReshapeReshape", s_reshape_reshape, [(BASIC, "ReshapeReshape.check"), (BASIC, "ReshapeReshape.rewrite")],
+                          kind="bounded", bound="ranks of x and of the intermediate <= 2, target length <= 2, static dims of x in {3}, of the intermediate in {0, 2}; named dims bound to {0,1,2,3,7} (the property's binding set); target values unbounded",
+                          trusted=TRUST, max_paths=80000))
